@@ -96,7 +96,11 @@ class DBusClientConnection (txdbus.protocol.BasicDBusProtocol):
         """
         Called when the transport loses connection to the bus
         """
-        if self.busName is None:
+        if not self._authenticated:
+            # Lost before authentication completed (refused, or the
+            # transport closed): nothing else will ever fire the Deferred
+            # returned by connect() / getConnection()
+            self.factory._failed(reason)
             return
 
         for cb in self._dcCallbacks:
